@@ -251,6 +251,18 @@ def handle (toks : List String) : String :=
       let hoys := (xs.drop (2 * n)).map Int.toNat
       showLines (epwToWea l dni dhi hoys)
     | _, _, _, _ => "bad-op"
+  | "apsub" :: rest =>
+    match nats rest with
+    | some [a, b, c, d, e, f, ts, l, a2, b2, c2, d2, e2, f2, ts2, l2] =>
+      let src : AP := ⟨a, b, c, d, e, f, ts, l == 1⟩
+      let req : AP := ⟨a2, b2, c2, d2, e2, f2, ts2, l2 == 1⟩
+      s!"ok {showAP (subsetAP src req)}"
+    | _ => "bad-op"
+  | "zhlag" :: ts :: n :: rest =>
+    match ts.toNat?, n.toNat?, nats rest with
+    | some ts, some n, some idx =>
+      "ok " ++ joinSp (idx.map fun i => match zhLagIndex ts n i with | some k => toString k | none => "err:index")
+    | _, _, _ => "bad-op"
   | "cliap" :: ts :: leap :: rest =>
     match ts.toNat?, bool? leap, nats rest with
     | some ts, some l, some cs =>
